@@ -13,6 +13,14 @@ import (
 	"verifharness/internal/core"
 )
 
+// syncReinit: generate `init c` on USED SyncRings. SyncRing.Init does not reset head/tail
+// (finding F16, witness `@ C10 sync 3 / push 2 / init 5 / len` → 1; fix:
+// reviews/C10-fix-syncring-reinit.patch). The model (a re-initialised ring is a fresh ring)
+// and the oracle are in place; the generator and the corpus case are switched on with
+// this constant once the fix is committed or the finding is listed in KNOWN_FINDINGS
+// (key syncring-reinit-stale-counters). Re-Init of an UNUSED ring and of Ring is always on.
+const syncReinit = true
+
 func isSync(c core.Case) bool {
 	h := core.Toks(c.Lines[0])
 	return len(h) >= 3 && h[2] == "sync"
@@ -22,6 +30,9 @@ func genBoth(r *core.Rand, tier string) core.Case {
 	if r.Chance(4) {
 		return genCap(r, tier)
 	}
+	if r.Chance(map[bool]int{false: 3, true: 12}[tier == "thorough"]) {
+		return genLarge(r, tier)
+	}
 	if r.Chance(45) {
 		return genSync(r, tier)
 	}
@@ -30,6 +41,9 @@ func genBoth(r *core.Rand, tier string) core.Case {
 
 func corpusBoth() []core.Case {
 	cs := corpus()
+	if syncReinit {
+		cs = append(cs, core.Case{Lines: []string{"@ C10 sync 3", "push 1", "push 2", "pop", "init 5", "cap", "len", "dump", "warp 4294967295", "push 3", "push 4", "pop", "init 1", "cap", "pop", "push 5", "push 6", "push 7", "init 0", "len"}})
+	}
 	return append(cs,
 		// F6: requested capacity above 2^31 (uint32 truncation / 1<<32 == 0): Cap()==0 and Push panics
 		core.Case{Lines: []string{"@ C10 sync 2147483649", "cap", "push 1"}},
@@ -41,8 +55,14 @@ func corpusBoth() []core.Case {
 		core.Case{Lines: []string{"@ C10 sync 2", "warp 4294967295", "push 1", "pop", "push 2", "push 3", "push 4", "len", "pop", "pop", "pop", "warp 1"}},
 		core.Case{Lines: []string{"@ C10 sync 8", "warp 8589934590", "dump", "push 1", "push 2", "push 3", "dump", "pop", "len", "cap"}},
 		core.Case{Lines: []string{"@ C10 sync 5", "push 1", "pop", "warp 7", "dump"}},
+		// Init twice with additions in between
+		core.Case{Lines: []string{"@ C10 sync 3", "init 5", "cap", "len", "warp 4294967295", "push 3", "push 4", "pop", "pop", "dump"}},
+		core.Case{Lines: []string{"@ C10 ring 3", "push 1", "push 2", "pop", "push 3", "push 4", "init 2", "len", "cap", "isempty", "pop", "push 5", "push 6", "push 7", "pop", "init 0", "len"}},
 		// capacity rounding beyond 2^16 (a roundupPowOfTwo that smears only 16 bits is wrong from 2^17+1 on)
 		core.Case{Lines: []string{"@ C10 synccap", "cap 1", "cap 2", "cap 3", "cap 65537", "cap 131072", "cap 131073", "cap 196608", "cap 1048577", "cap 3145728", "cap 4194303", "cap 0", "cap 2147483649"}},
+		// large Ring: full ring of capacity 1024 rotated so that most of the content sits before head, then PushWithExpand
+		core.Case{Lines: []string{"@ C10 ringL 1024", "fill 1024 1", "drain 600", "fill 600 2000", "xfill 1 5000", "cap", "len", "drain 2000", "isempty"}, Tag: "large"},
+		core.Case{Lines: []string{"@ C10 ringL 4097", "fill 5000 1", "drain 4000", "fill 4000 9000", "recap 4096", "recap 4098", "xfill 3 20000", "cap", "len", "drain 9000"}, Tag: "large"},
 		bigRingCase(1<<17+1, ""),
 		bigRingCase(3<<17, "4294967294"),
 		// PushWait / PopWait in the three regimes of maxWait, across the 2^32 boundary
@@ -109,6 +129,14 @@ func genSync(r *core.Rand, tier string) core.Case {
 				pushW, popW = 20, 50
 			}
 		}
+		if syncReinit && r.Chance(1) { // history: Init again on a used ring (fresh again: warp allowed)
+			c := r.Range(1, 9)
+			if r.Chance(8) {
+				c = 0
+			}
+			lines = append(lines, fmt.Sprintf("init %d", c))
+			continue
+		}
 		switch r.Pick(pushW, popW, 8, 3, 6, 6, 5, 1) {
 		case 0:
 			if w := wait(); waits && r.Chance(60) {
@@ -149,6 +177,9 @@ func genSync(r *core.Rand, tier string) core.Case {
 }
 
 func implBoth(c core.Case) []string {
+	if isLarge(c) {
+		return implLarge(c)
+	}
 	if isCap(c) {
 		return implCap(c)
 	}
@@ -159,6 +190,9 @@ func implBoth(c core.Case) []string {
 }
 
 func checkBoth(c core.Case, out []string) *core.Failure {
+	if isLarge(c) {
+		return checkLarge(c, out)
+	}
 	if isCap(c) {
 		return checkCap(c, out)
 	}
@@ -169,6 +203,9 @@ func checkBoth(c core.Case, out []string) *core.Failure {
 }
 
 func classifyBoth(c core.Case, out []string) []string {
+	if isLarge(c) {
+		return classifyLarge(c, out)
+	}
 	if isCap(c) {
 		return classifyCap(c, out)
 	}
@@ -316,6 +353,14 @@ func implSyncMax(c core.Case, max int) []string {
 					held++
 				}
 				return strconv.FormatBool(ok)
+			case len(t) == 2 && t[0] == "init":
+				n, err := strconv.Atoi(t[1])
+				if err != nil || tooLargeToRun(n) {
+					return "bad-op"
+				}
+				r.Init(n)
+				held = 0
+				return "ok"
 			case len(t) == 3 && t[0] == "pushw":
 				v, err := strconv.Atoi(t[1])
 				ms, err2 := strconv.Atoi(t[2])
@@ -448,6 +493,7 @@ func checkSyncMax(c core.Case, out []string, max int) *core.Failure {
 	}
 	var q []int
 	var warped []string
+	reinit := false
 	for i := 1; i < len(c.Lines); i++ {
 		t := core.Toks(c.Lines[i])
 		arg := 0
@@ -457,6 +503,22 @@ func checkSyncMax(c core.Case, out []string, max int) *core.Failure {
 		var want string
 		before := append([]int{}, q...)
 		switch t[0] {
+		case "init":
+			if tooLargeToRun(arg) {
+				continue
+			}
+			if arg <= 0 || arg > 1<<31 {
+				if out[i] != "panic" {
+					return &core.Failure{Key: "syncring-init-nonpositive", Desc: fmt.Sprintf("Init(%d) on a used ring answered %q, panic expected", arg, out[i])}
+				}
+				return nil
+			}
+			capacity = 2
+			for capacity < arg {
+				capacity *= 2
+			}
+			q, want = nil, "ok"
+			reinit = true
 		case "push", "pushw": // PushWait with maxWait >= 0 must answer as Push
 			if len(t) < 2 {
 				continue
@@ -504,6 +566,9 @@ func checkSyncMax(c core.Case, out []string, max int) *core.Failure {
 		default:
 			continue
 		}
+		if out[i] != want && reinit {
+			return &core.Failure{Key: "syncring-reinit-stale-counters", Desc: fmt.Sprintf("after Init on a used SyncRing, op %d %q: implementation answered %q, an empty bounded FIFO of capacity %d holding %v answers %q (Init does not reset head/tail)", i, c.Lines[i], out[i], capacity, before, want)}
+		}
 		if out[i] != want {
 			return &core.Failure{Key: "syncring-fifo", Desc: fmt.Sprintf("op %d %q: implementation answered %q, bounded FIFO of capacity %d holding %v answers %q (counters advanced by %v push/pop pairs)", i, c.Lines[i], out[i], capacity, before, want, warped)}
 		}
@@ -550,6 +615,9 @@ func classifySync(c core.Case, out []string) []string {
 			}
 		}
 		switch {
+		case t[0] == "init":
+			ls = append(ls, "sync-reinit")
+			warped, succ = false, 0
 		case t[0] == "warp" && o == "ok":
 			k, _ = strconv.ParseUint(t[1], 10, 64)
 			warped = true
